@@ -172,6 +172,28 @@ CLAIMED = {
              "setup() and solve() in child processes (ASan/UBSan builds in the thorough tier).",
         design_ref="DESIGN.md section 4, C20", note="PARTIAL: UB-freedom of spec-modelled C++ (smoother internals, assembly) rests on sanitizer runs; defects F3, F6, F12 repaired.",
         technique="Lean 4 proof over a decision model + translator for the test-case table + process-level differential testing"),
+    "C11": dict(
+        category="proof",
+        text="The OpenMP phase structure of twelve kernel-dispatch parallel regions (72 work-sharing loops: bounds, strides, nowait flags, "
+             "bodies with their if-ladders) is REGENERATED from the C++ by a translator on every run; Lean 4 theorems over the generated terms "
+             "prove, for every admissible grid shape (unbounded nr, ntheta, number of circles) and hence for every thread count and every "
+             "assignment of iterations to threads, that two different iterations of one barrier interval never write the same node of a "
+             "shared array nor write what the other reads (hand-written kernel footprints) — including the nowait overlaps and the ntheta%3 "
+             "remainder ladders; the give smoothers need ntheta % 4 = 0 (machine-checked counterexample otherwise); the per-thread solver "
+             "scratch vectors are declared inside the region.  When a proof breaks the regenerated schedule is searched for a concrete "
+             "conflicting pair on all small shapes.",
+        design_ref="DESIGN.md section 4, C11", note="OpenMP runtime / memory model trusted; footprints hand-written, validated by TSan+Archer in the thorough tier; 36 owner-computes `parallel for` regions are outside the schedule model (TSan only).",
+        technique="translator (C++ -> Lean schedule) + Lean 4 proof (omega over generated terms) + bounded conflict search + TSan"),
+    "C12": dict(
+        category="proof",
+        text="Lean 4 theorems: tasks with pairwise non-interfering footprints that respect their footprints commute, so every order of the "
+             "work items of a barrier interval of every generated region gives the same memory, for every value type (hence bit for bit in "
+             "double) — combined with C11 this is thread-count and schedule independence of all twelve regions; sums / maxima over any "
+             "chunking combined in any order equal the plain sum / maximum (exact arithmetic); the threads-per-level formula stays in "
+             "[1, max] and is antitone.  Tie / oracle: every operator at 1..32 threads with repeats, vector kernels around the 10 000 "
+             "threshold against exact rational values, whole solves at several thread counts.",
+        design_ref="DESIGN.md section 4, C12", note="serialisability of race-free OpenMP programs assumed; reductions are not bit-reproducible by specification (compared to rounding only).",
+        technique="Lean 4 proof (commutation from disjoint footprints, List.Perm induction) over the generated schedule + reproducibility oracle"),
 }
 
 PENDING_REASON = "not claimed yet: model and theorems for this property are still being built (see DESIGN.md section 7)"
